@@ -6,7 +6,7 @@ SPEC = dict(
          "expression columns), then 220 (quick) / 6000 (thorough) random parameter lists of 1-4 values, each stored in an untyped, INTEGER, REAL, TEXT, BLOB column and read "
          "back (plus an expression) in 4 result forms (standard/associative x base64/byte-array), locally or as a forwarded (protobuf) result; a list is non-trivial when it "
          "has an integer beyond 2^53 or at the int64 limits, a float at the range limits or around 2^63, a blob that is empty or not valid UTF-8, or a string containing "
-         "x/X and a quote (hex-looking); distinct by request body + form",
+         "x/X and a quote (hex-looking); distinct by request body + form; every rendering made by the real encoder is kept uncopied and re-read after all later (and 8-way concurrent) renderings",
     exhaustive=False,
     case_preamble="Open Scope string_scope.\n",
     shard=60, coq_jobs=8,
